@@ -1,5 +1,6 @@
 import Sop.Model.Cache
 import Sop.Model.StoreInfoCache
+import Sop.Model.RegistryGet
 import Sop.Driver.Util
 /-! Line protocol of C20 (see harness/cmd/c20/main.go).
 
@@ -19,6 +20,15 @@ import Sop.Driver.Util
     get <name>                             -> <count> <ts> <info> | none     cache-first read (Get / GetWithTTL)
     disk <name>                            -> <count> <ts> <info> | none     the file (= what a cold process reads)
     evict <name> | remove <name>           -> ok
+
+    case n rg <label> <nids> <wbAll 0|1>   registry Get cases (Sop.Model.RegistryGet): ids 0..nids-1 added (file + L2, version 0)
+    gs p i j …                             -> ok|busy      process p starts Get over the ids
+    g p                                    -> hit i v | miss i | disk i | set i v | ret i:v,… | idle    next step of p's Get
+    us l|n i j …                           -> ok|busy      updater starts (l = Update, n = UpdateNoLocks)
+    u                                      -> wd i v | wl i v | done | idle          next step of the updater
+    ev i                                   -> ok           L2 entry evicted
+    obs i                                  -> l2 <v|-> disk <v>
+    warm i                                 -> <v>          a whole single-id Get by a bystander process (steps of process 99)
 -/
 namespace Sop.Driver.C20
 open Sop.Driver Sop.Cache
@@ -102,19 +112,62 @@ def stepSI (s : SICache.St) (ws : List String) : SICache.St × String :=
   | ["remove", n] => (s.remove n, "ok")
   | _ => (s, "bad-op")
 
+/-! ### registry Get cases -/
+open Sop.RegGet in
+def showRG : RegGet.Out → String
+  | .ok => "ok" | .busy => "busy" | .idle => "idle" | .done => "done"
+  | .hit i v => s!"hit {i} {v}" | .miss i => s!"miss {i}" | .disk i => s!"disk {i}" | .set i v => s!"set {i} {v}"
+  | .ret l => "ret " ++ ",".intercalate (l.map fun (i, v) => s!"{i}:{v}")
+  | .wd i v => s!"wd {i} {v}" | .wl i v => s!"wl {i} {v}"
+
+def natsOf (ws : List String) : Option (List Nat) := ws.mapM String.toNat?
+
+/-- run process `g`'s Get to its return (at most `fuel` steps) -/
+def finishGet (s : RegGet.St) (g : Nat) : Nat → RegGet.St × String
+  | 0 => (s, "stuck")
+  | fuel + 1 =>
+    match RegGet.step s (.get g) with
+    | (s', .ret l) => (s', " ".intercalate (l.map fun (_, v) => toString v))
+    | (s', .idle) => (s', "idle")
+    | (s', _) => finishGet s' g fuel
+
+def stepRG (s : RegGet.St) (ws : List String) : RegGet.St × String :=
+  let go (op : RegGet.Op) : RegGet.St × String := let (s', o) := RegGet.step s op; (s', showRG o)
+  match ws with
+  | "gs" :: p :: ids => match p.toNat?, natsOf ids with | some p, some ids => go (.getStart p ids) | _, _ => (s, "bad-op")
+  | ["g", p] => match p.toNat? with | some p => go (.get p) | none => (s, "bad-op")
+  | "us" :: k :: ids => match natsOf ids with | some ids => go (.updStart (k == "l") ids) | none => (s, "bad-op")
+  | ["u"] => go .upd
+  | ["ev", i] => match i.toNat? with | some i => go (.evict i) | none => (s, "bad-op")
+  | ["obs", i] =>
+    match i.toNat? with
+    | some i => (s, s!"l2 {match s.l2 i with | some v => toString v | none => "-"} disk {s.disk i}")
+    | none => (s, "bad-op")
+  | ["warm", i] =>
+    match i.toNat? with
+    | some i =>
+      match RegGet.step s (.getStart 99 [i]) with
+      | (s', .ok) => finishGet s' 99 8
+      | (s', _) => (s', "busy")
+    | none => (s, "bad-op")
+  | _ => (s, "bad-op")
+
 inductive DSt
   | node (s : St)
   | si (s : SICache.St)
+  | rg (s : RegGet.St)
 
 def resetD (hdr : List String) : DSt :=
   match hdr with
   | "si" :: _ => .si (fun _ => {})
+  | "rg" :: _ :: n :: w :: _ => .rg (RegGet.init (w == "1") (n.toNat?.getD 0))
   | _ => .node (reset hdr)
 
 def stepD (s : DSt) (ws : List String) : DSt × String :=
   match s with
   | .node s => let (s', o) := step s ws; (.node s', o)
   | .si s => let (s', o) := stepSI s ws; (.si s', o)
+  | .rg s => let (s', o) := stepRG s ws; (.rg s', o)
 
 def run : IO Unit := runLoop resetD stepD
 end Sop.Driver.C20
